@@ -95,3 +95,54 @@ def tx_case(draw, min_in=1, max_in=5, max_out=5, witness=True, spk=None, amounts
         "vin": vin,
         "vout": vout,
     }
+
+
+@st.composite
+def valid_tx_case(draw, max_in=4, max_out=4, big_scripts=False, big_counts=False):
+    """A transaction Tx.assert_valid accepts: >=1 input, >=1 output, distinct outpoints, total value <= MAX_MONEY.
+    big_counts: one of the three counts (inputs, outputs, witness items) sits on the CompactSize 252/253 boundary."""
+    nin = draw(st.integers(1, max_in))
+    nout = draw(st.integers(1, max_out))
+    many = draw(st.sampled_from(["nin", "nout", "witness"])) if big_counts else None
+    edge = draw(st.sampled_from([252, 253, 254])) if big_counts else 0
+    if many == "nin":
+        nin = edge
+    if many == "nout":
+        nout = edge
+    sizes = st.sampled_from([0, 1, 75, 76, 252, 253, 254, 255, 256, 520, 521]) if big_scripts else st.integers(0, 30)
+    vin = []
+    base_txid = draw(hex32())
+    for k in range(nin):
+        own = draw(st.booleans()) if many != "nin" else False
+        if many == "nin":
+            vin.append({"txid": base_txid, "vout": k, "script_sig": "", "sequence": 0xFFFFFFFF, "witness": []})
+            continue
+        vin.append(
+            {
+                "txid": draw(hex32()) if own else base_txid,
+                "vout": draw(u32()) if own else k,  # same txid => distinct index
+                "script_sig": draw(sizes.flatmap(lambda n: st.binary(min_size=n, max_size=n))).hex(),
+                "sequence": draw(sequence()),
+                "witness": draw(st.lists(sizes.flatmap(lambda n: st.binary(min_size=n, max_size=n)).map(bytes.hex), max_size=3)),
+            }
+        )
+    # null outpoint (coinbase marker) is not a valid non-coinbase input
+    for i in vin:
+        if i["txid"] == "00" * 32 and i["vout"] == 0xFFFFFFFF:
+            i["vout"] = 0
+    seen = set()
+    for i in vin:
+        while (i["txid"], i["vout"]) in seen:
+            i["vout"] = (i["vout"] + 1) % 0xFFFFFFFF
+        seen.add((i["txid"], i["vout"]))
+    if many == "witness":
+        vin[0]["witness"] = [draw(st.sampled_from(["", "00", "aabb"]))] * edge
+    cap = MAX_MONEY // nout
+    if many == "nout":
+        vout = [{"value": k, "spk": "51"} for k in range(nout)]
+    else:
+        vout = [
+            {"value": draw(st.one_of(st.sampled_from([0, 1, cap]), st.integers(0, cap))), "spk": draw(sizes.flatmap(lambda n: st.binary(min_size=n, max_size=n))).hex()}
+            for _ in range(nout)
+        ]
+    return {"version": draw(st.one_of(st.sampled_from([1, 2, 3]), u32())), "lock_time": draw(u32()), "vin": vin, "vout": vout}
